@@ -358,6 +358,34 @@ class Check(core.PropertyCheck):
     def mon_constants(self, tier):
         return {}
 
+    def setup(self, ctx):
+        """Self-check of the oracle: the harness reader must agree with a third parser (aioquic) where that one
+        accepts the hello.  A disagreement is a machinery failure, never a verdict."""
+        try:
+            from aioquic import tls as at
+            from aioquic.buffer import Buffer
+        except Exception:  # noqa: BLE001
+            return
+        n = 0
+        for name, spec in hello_pool(False):
+            body, _ = th.build_body(spec)
+            mine = th.read_hello(body, False)
+            try:
+                h = at.pull_client_hello(Buffer(data=th.handshake_header(len(body), False) + body))
+            except Exception:  # noqa: BLE001 - aioquic only reads TLS 1.3 style hellos
+                continue
+            n += 1
+            theirs = (h.server_name, [a.encode("latin-1") if isinstance(a, str) else a for a in (h.alpn_protocols or [])],
+                      list(h.cipher_suites))
+            try:
+                mine_alpn = [a.decode("utf-8") for a in mine["alpn"]]
+                their_alpn = list(h.alpn_protocols or [])
+            except UnicodeDecodeError:
+                mine_alpn = their_alpn = []
+            if (mine["sni"], mine_alpn, mine["suites"]) != (h.server_name, their_alpn, list(h.cipher_suites)):
+                raise core.MachineryError(f"oracle self-check: reader and aioquic disagree on {name}: {mine} vs {theirs}")
+        ctx.notes["oracle_cross_checked_with_aioquic"] = n
+
     def model_constants(self, tier, big=False):
         inputs = abstract_inputs(tier, big)
         ti = tla_inputs(inputs)
@@ -458,8 +486,51 @@ class Check(core.PropertyCheck):
             i += gsize
         return make_scenario("dtls", True, variant, len(recs), b"".join(recs), segs, hello=name)
 
+    def _openssl(self, ctx, rng):
+        """ClientHellos written by OpenSSL itself (pyOpenSSL client, TLS 1.2 / 1.3 / DTLS, with and without SNI and
+        ALPN), re-cut into random record / segment layouts.  They differ from run to run (client random), the replay
+        file carries the bytes."""
+        from OpenSSL import SSL
+
+        def hello(method, lo, hi, sni, alpn):
+            c = SSL.Context(method)
+            if lo:
+                c.set_min_proto_version(lo)
+                c.set_max_proto_version(hi)
+            conn = SSL.Connection(c, None)
+            if sni:
+                conn.set_tlsext_host_name(sni)
+            if alpn:
+                conn.set_alpn_protos(alpn)
+            conn.set_connect_state()
+            try:
+                conn.do_handshake()
+            except SSL.WantReadError:
+                pass
+            return conn.bio_read(1 << 16)
+
+        for lo, hi in ((SSL.TLS1_2_VERSION, SSL.TLS1_2_VERSION), (SSL.TLS1_3_VERSION, SSL.TLS1_3_VERSION), (None, None)):
+            for sni, alpn in ((b"example.mitmproxy.org", [b"h2", b"http/1.1"]), (None, None), (b"Host.Example", None)):
+                wire = hello(SSL.TLS_METHOD, lo, hi, sni, alpn)
+                body = th.reassemble(wire, False)
+                msg = th.handshake_header(len(body), False) + body
+                for _ in range(2 if ctx.quick else 20):
+                    sizes = split_sizes(rng, len(msg), rng.choice([1, 2, 3]))
+                    w2 = tls_wire(msg, sizes, rng)
+                    yield core.Scenario(make_scenario("tls", True, "plain", len(sizes), w2,
+                                                      split_sizes(rng, len(w2), rng.choice([1, 2, 4])), hello="openssl"), source="suite")
+        for sni, alpn in ((b"example.mitmproxy.org", [b"h2"]), (None, None)):
+            wire = hello(SSL.DTLS_METHOD, None, None, sni, alpn)
+            ver = wire[1:3]
+            # as sent (OpenSSL puts {254,255} on the first ClientHello record) and with the record version {254,253}
+            yield core.Scenario(make_scenario("dtls", True, "plain" if ver == b"\xfe\xfd" else "dtls10_record_version", 1, wire,
+                                              [len(wire)], hello="openssl"), source="suite")
+            w2 = wire[:1] + b"\xfe\xfd" + wire[3:]
+            yield core.Scenario(make_scenario("dtls", True, "plain", 1, w2, [len(w2)], hello="openssl"), source="suite")
+
     def _suite(self, ctx, rng):
         """Hand-picked classes the abstract model does not enumerate (real byte granularity, every hello of the pool)."""
+        yield from self._openssl(ctx, rng)
         for dtls in (False, True):
             for name, spec in hello_pool(dtls):
                 reps = 3 if ctx.quick else 25
